@@ -2,8 +2,8 @@
 import os
 import vf
 
-MODEL_VOS = ["Base/Conv.vo", "DD/Table.vo", "DD/TableExtra.vo", "DD/Sem.vo", "Num/I64.vo", "DD/FamSpec.vo", "DD/ZbddOps.vo", "DD/ZbddVars.vo"]
-DRIVER_EXTRA = ["dd_types.ml", "order.ml", "zchain.ml", "pick.ml", "zfam.ml"]
+MODEL_VOS = ["Base/Conv.vo", "DD/Table.vo", "DD/TableExtra.vo", "DD/Sem.vo", "Num/I64.vo", "DD/FamSpec.vo", "DD/ZbddOps.vo", "DD/ZbddVars.vo", "Mgr/SortOrder.vo", "Mgr/LevelSwap.vo"]
+DRIVER_EXTRA = ["dd_types.ml", "order.ml", "zchain.ml", "pick.ml", "zfam.ml", "lswap.ml"]
 
 
 class DDCtx(vf.Ctx):
